@@ -307,6 +307,35 @@ func (c *Ctx) useRecoveryCodeShape(f *ssa.Function) {
 			}
 		}
 	}
+	// alternative idiom: append(codes[:i], codes[i+1:]...) into a fresh slice
+	if !okLen {
+		var lo, hi *ssa.Slice
+		for _, b := range f.Blocks {
+			for _, in := range b.Instrs {
+				sl, ok := in.(*ssa.Slice)
+				if !ok {
+					continue
+				}
+				if _, isP := stripConv(sl.X).(*ssa.Parameter); !isP {
+					continue
+				}
+				if sl.Low == nil && sl.High != nil {
+					lo = sl
+				}
+				if sl.High == nil && sl.Low != nil {
+					hi = sl
+				}
+			}
+		}
+		if lo != nil && hi != nil {
+			if bo, ok := hi.Low.(*ssa.BinOp); ok && bo.Op == token.ADD && bo.X == lo.High {
+				if n, isC := ConstInt(bo.Y); isC && n == 1 {
+					r.Ok("C12.use-code", name, "append(codes[:i], codes[i+1:]...)", c.P.Pos(f.Pos()), "result omits exactly the matched element")
+					return
+				}
+			}
+		}
+	}
 	r.Check(okLen, "C12.use-code", name, "make([]string, len(codes)-1)", c.P.Pos(f.Pos()), "result is one shorter than the input", "the list returned is not exactly one element shorter than the stored list")
 	// skip: a branch 'j == use' that continues without storing
 	okSkip := false
